@@ -538,8 +538,12 @@ def acos_clamp(P, rep, rule="ABS.acos"):
             rep.violation(rule, "acos is applied to %s" % str(inner)[:80], F.nloc(x), F.qn, norm.render(P, x)[:140], "expected the normalised dot product p1.p2/radius^2",
                           key=rule + "|formula", witness="two points 60 degrees apart")
             continue
-        if lo == -sp.oo and hi == sp.oo:
-            rep.ok(rule, "acos argument is the normalised dot product, not clamped", F.nloc(x), F.qn)
+        if lo == -sp.oo or hi == sp.oo:
+            side = "not clamped" if (lo == -sp.oo and hi == sp.oo) else ("not clamped from below" if lo == -sp.oo else "not clamped from above")
+            rep.violation(rule, "acos argument is the normalised dot product, %s" % side, F.nloc(x), F.qn, norm.render(P, x)[:140],
+                          "round-off pushes p1.p2/radius^2 of (anti)parallel position vectors past +-1: acos returns NaN, and so does every distance, "
+                          "age and temperature computed from it", key=rule + "|unclamped",
+                          witness="two coinciding points, or a point and its antipode (a ridge on the far side of the globe)")
         elif float(lo) <= -1.0 and float(hi) >= 1.0:
             if lo != -sp.oo and hi != sp.oo and not absorbing:
                 rep.violation(rule, "the clamp passes NaN through (in the innermost std::min/std::max the constant is the second argument)", F.nloc(x), F.qn, norm.render(P, x)[:140],
